@@ -458,6 +458,8 @@ class Parser:
                 return ('cast', m.group(3), op, self.op_type(op), m.group(2))
         if s.startswith(('copy ', 'move ', 'const ', 'no_retag copy ')):
             return ('use', self._operand(b, s))
+        if s.startswith('&/*tls*/ '):
+            return ('tlsref', s[len('&/*tls*/ '):].strip())
         if s.startswith('&'):
             r = s[1:]
             for p in ('raw const ', 'raw mut ', 'mut ', 'fake shallow ', 'fake '):
